@@ -53,6 +53,21 @@ def runs(index, entries=("backward", "mtl_backward")):
     return P, [r for e in entries for r in done[e]]
 
 
+def oneshot_runs(index):
+    """The entry points called with their differentiated collection handed over as a one-shot iterable (iterator, generator,
+    filter object): such an object is always true and has no len(), so only a test on the materialised list says anything."""
+    P, _ = runs(index, ())
+    done = _CACHE[id(index)][1]
+    if "oneshot" not in done:
+        done["oneshot"] = [
+            Run("backward", "backward(tensors=<one-shot iterable>, inputs=None, parallel_chunk_size=None)", {"inputs": False, "chunk": False, "oneshot": ("tensors",)},
+                P.run_backward(False, False, oneshot=("tensors",))),
+            Run("mtl_backward", "mtl_backward(features=<one-shot iterable>, tasks_params=None, shared_params=None, parallel_chunk_size=None)",
+                {"tasks": False, "shared": False, "chunk": False, "oneshot": ("features",)}, P.run_mtl(False, False, False, oneshot=("features",))),
+        ]
+    return done["oneshot"]
+
+
 def compute_method_name(index) -> str:
     """Name of the abstract method that Transform.__call__ runs after the key check (`_compute` today): found by its role."""
     import ast
@@ -160,8 +175,33 @@ def blocking(res):
     return [e for e in res.events if e["kind"] in ("unknown", "unknown_call", "no_fixpoint", "lost_mutation", "opaque_op", "opaque_method", "attr_store_unknown", "subscript_store_unknown")]
 
 
+def lost_paths(run: Run):
+    """Paths on which the analysis lost track: they end in an exception that no `raise` statement of the source produces (a subscript /
+    attribute / call on a value the interpreter could not model, after a construct outside the analysed subset). What the program
+    really does there was not seen, so nothing can be said about it."""
+    import ast
+
+    out = []
+    for r in run.raising():
+        if isinstance(getattr(r.exc, "node", None), ast.Raise) or r.exc.exc_name not in ("IndexError", "TypeError", "AttributeError", "KeyError"):
+            continue
+        if blocking(r):
+            out.append(r)
+    return out
+
+
 def common_evidence(ctx, index, entries=("backward", "mtl_backward")):
     P, rs = runs(index, entries)
+    seen_lost = set()
+    for run in rs:
+        for r in lost_paths(run):
+            e = blocking(r)[0]
+            if (run.entry, e["loc"]) in seen_lost:
+                continue
+            seen_lost.add((run.entry, e["loc"]))
+            ctx.rule("paths", "every path of the entry points is followed to its end: a path abandoned at a construct outside the analysed subset is reported, not ignored")
+            ctx.undecided("paths", f"{run.entry}: path abandoned at {e['loc'].split('/')[-1]}", f"after `{e['text'][:70]}` ({e['loc']}) the value is unknown and the path [{r.describe_path()[-90:]}] "
+                          f"ends in an artefact {r.exc.exc_name}; what the program does on it was not analysed", e["loc"])
     ctx.analysed(*sorted(P.interp.functions_entered))
     ctx.call_sites += len(P.interp.calls_made)
     ctx.paths += sum(len(r.results) for r in rs)
